@@ -545,53 +545,114 @@ class Exec:
             path.append(ix)
         return Ptr(base.region, path)
 
-    # ---- exact x87 80-bit model (opt-in: self.fp_exact)
-    def fp80_div(self, a, b):
-        """RNE_64(a / b) for exact operands: ('int', term) | ('ldc', Fraction) | ('ld', M, e)"""
+    # ---- exact IEEE-754 model (opt-in: self.fp_exact) for float / double / x86_fp80.
+    # A modelled value is FPV(('q', N, D)): the non-negative rational N / D (N integer term or int, D positive python int) that the
+    # floating point datum holds EXACTLY.  Every operation computes the exact rational result and applies ONE round-to-nearest-even step
+    # at the precision of the result type, encoded in linear integer arithmetic per binade (vlib/fprne.py), the binade chosen by forking.
+    # Outside the modelled fragment (negative values, symbolic divisors, symbolic x symbolic products, NaN / infinities) results are havoc.
+    FP_PREC = {'float': 24, 'double': 53, 'x86_fp80': 64}
+
+    @staticmethod
+    def fp_parse_const(tok):
+        """LLVM floating point literal -> Fraction (None if not finite / not understood)"""
+        from fractions import Fraction
+        import struct
+        try:
+            if tok.startswith('0xK'):
+                h = int(tok[3:], 16); se = h >> 64; mant = h & ((1 << 64) - 1)
+                sign = -1 if se >> 15 else 1; e = se & 0x7fff
+                if e == 0x7fff: return None
+                return sign * Fraction(mant) * Fraction(2) ** ((e if e else 1) - 16383 - 63)
+            if tok.startswith('0x') and len(tok) == 18:
+                v = struct.unpack('>d', bytes.fromhex(tok[2:]))[0]
+                return Fraction(v) if v == v and abs(v) != float('inf') else None
+            if tok.startswith('0x'): return None
+            return Fraction(float(tok))
+        except Exception:
+            return None
+
+    def fpq(self, v):
+        """(N, D) of a modelled floating point value, else None"""
+        if isinstance(v, FPV) and isinstance(v.tag, tuple):
+            if v.tag[0] == 'q': return v.tag[1], v.tag[2]
+            if v.tag[0] == 'const':
+                fr = self.fp_parse_const(v.tag[1])
+                if fr is not None and fr >= 0: return fr.numerator, fr.denominator
+        return None
+
+    def fp_havoc(self, what):
+        self.fresh_n += 1; return FPV('%s!%d' % (what, self.fresh_n))
+
+    def fp_round(self, A, B, P):
+        """RNE at precision P of the non-negative rational A / B  (A: int or integer term, B: positive python int)"""
         from fractions import Fraction
         from . import fprne
-        P = 64
-        def conc(v):
-            if isinstance(v, FPV) and isinstance(v.tag, tuple):
-                if v.tag[0] == 'ldc': return v.tag[1]
-                if v.tag[0] == 'int':
-                    x = v.tag[1]
-                    if isinstance(x, int): return Fraction(x)
-                    x = z3.simplify(x)
-                    if z3.is_int_value(x): return Fraction(x.as_long())
-            return None
-        ca, cb = conc(a), conc(b)
-        if cb is not None and cb == 0: raise Inconclusive('fp division by zero')
-        if ca is not None and cb is not None:
-            q = ca / cb
-            if q == 0: return FPV(('ldc', Fraction(0)))
-            import math
-            e = math.floor(math.log2(q))
+        if not isinstance(A, int):
+            A = z3.simplify(A)
+            if z3.is_int_value(A): A = A.as_long()
+        if isinstance(A, int):
+            q = Fraction(A, B)
+            if q == 0: return FPV(('q', 0, 1))
+            e = q.numerator.bit_length() - q.denominator.bit_length()
             while Fraction(2) ** e > q: e -= 1
             while Fraction(2) ** (e + 1) <= q: e += 1
             scale = Fraction(2) ** (P - 1 - e); m = q * scale; fl = m.numerator // m.denominator; rem = m - fl
             if rem > Fraction(1, 2) or (rem == Fraction(1, 2) and fl % 2 == 1): fl += 1
-            return FPV(('ldc', Fraction(fl) / scale))
-        if not (isinstance(a, FPV) and isinstance(a.tag, tuple) and a.tag[0] == 'int' and cb is not None and cb > 0):
-            self.fresh_n += 1; return FPV('fdiv!%d' % self.fresh_n)          # outside the modelled fragment: havoc
-        A = a.tag[1] * cb.denominator; B = cb.numerator            # a / b = A / B with a symbolic non-negative integer A
-        if self.decide(a.tag[1] == 0): return FPV(('ldc', Fraction(0)))
-        # binade of A/B by forking (binary search over the exponent range of a 64-bit numerator)
-        lo, hi = -80, 80 + 64
+            r = Fraction(fl) / scale
+            return FPV(('q', r.numerator, r.denominator))
+        if B & (B - 1) == 0 and self.valid(A < 2 ** P):
+            return FPV(('q', A, B))                 # an integer below 2^P over a power of two is representable: no rounding
+        if self.decide(A == 0): return FPV(('q', 0, 1))
+        lo, hi = -1100, 1100
+        # binade of A/B by forking (binary search over the exponent)
+        nb = B.bit_length()
+        lo, hi = -nb - 2, 64 + 64 + 2
         while lo < hi:
             mid = (lo + hi + 1) // 2
             ge = (A >= (2 ** mid) * B) if mid >= 0 else (A * (2 ** (-mid)) >= B)
             if self.decide(ge): lo = mid
             else: hi = mid - 1
-        M = self.fresh('fpM', 80)
-        for c in fprne.rne_constraints(A, z3.IntVal(B), lo, P, M): self.assume(c)
-        return FPV(('ld', M, lo))
+        Mv = self.fresh('fpM', 80)
+        for c in fprne.rne_constraints(A, z3.IntVal(B), lo, P, Mv): self.assume(c)
+        k = lo - P + 1
+        return FPV(('q', Mv * (2 ** k), 1)) if k >= 0 else FPV(('q', Mv, 2 ** (-k)))
 
-    def fp80_trunc(self, v):
-        from . import fprne
-        if v.tag[0] == 'int': return v.tag[1]
-        if v.tag[0] == 'ldc': return int(v.tag[1])
-        return fprne.value_floor(v.tag[1], v.tag[2], 64)
+    def fp_binop(self, op, a, b, P):
+        qa, qb = self.fpq(a), self.fpq(b)
+        if qa is None or qb is None: return self.fp_havoc(op)
+        (n1, d1), (n2, d2) = qa, qb
+        conc2 = isinstance(n2, int); conc1 = isinstance(n1, int)
+        if op == 'fadd':
+            return self.fp_round(n1 * d2 + n2 * d1, d1 * d2, P)
+        if op == 'fsub':
+            A = n1 * d2 - n2 * d1
+            if isinstance(A, int):
+                return self.fp_round(A, d1 * d2, P) if A >= 0 else self.fp_havoc(op)
+            return self.fp_round(A, d1 * d2, P) if self.valid(A >= 0) else self.fp_havoc(op)
+        if op == 'fmul':
+            if conc1 or conc2: return self.fp_round(n1 * n2, d1 * d2, P)
+            return self.fp_havoc(op)
+        if op == 'fdiv':
+            if conc2:
+                if n2 == 0: raise Inconclusive('fp division by zero')
+                return self.fp_round(n1 * d2, d1 * n2, P)
+            return self.fp_havoc(op)
+        return self.fp_havoc(op)
+
+    def fp_to_int(self, v):
+        q = self.fpq(v)
+        if q is None: return None
+        n, d = q
+        if d == 1: return n
+        return n // d if isinstance(n, int) else n / d
+
+    def fp_cmp(self, pred, a, b):
+        qa, qb = self.fpq(a), self.fpq(b)
+        if qa is None or qb is None: return None
+        x, y = qa[0] * qb[1], qb[0] * qa[1]
+        r = {'oeq': x == y, 'ueq': x == y, 'one': x != y, 'une': x != y, 'ogt': x > y, 'ugt': x > y, 'oge': x >= y, 'uge': x >= y,
+             'olt': x < y, 'ult': x < y, 'ole': x <= y, 'ule': x <= y}.get(pred)
+        return r
 
     # ---- calls
     def call(self, fname, args):
@@ -818,37 +879,55 @@ class Exec:
         if op == 'unreachable':
             def f(env, prev): raise AssertFail('unreachable')
             return f
-        # ---- floating point: havoc by default; with self.fp_exact the x87 80-bit operations needed for integer/rate quotients are modelled
-        # exactly (uitofp of an unsigned 64-bit value is exact; fdiv is one IEEE round-to-nearest-even step at 64 significand bits encoded in
-        # LIA per binade, the binade chosen by forking; fptoui truncates)
+        # ---- floating point: havoc by default; with self.fp_exact the IEEE operations on non-negative values are modelled exactly (see fp_round)
         if op in ('fadd', 'fsub', 'fmul', 'fdiv', 'frem', 'fneg', 'fpext', 'fptrunc', 'uitofp', 'sitofp'):
-            mm = re.match(r'(\w+)( nsw| nuw| exact| fast)* (.+?) ([^ ,]+)(?:, ([^ ,]+))?(?: to (.+))?$', t)
-            if getattr(self, 'fp_exact', False) and mm and op == 'uitofp' and mm.group(6) == 'x86_fp80':
-                o = D(mm.group(3), mm.group(4))
+            mm = re.match(r'(\w+)( nsw| nuw| exact| fast| nnan| ninf| nsz| arcp| contract| afn| reassoc)* (.+?) ([^ ,]+)(?:, ([^ ,]+))?(?: to (.+))?$', t)
+            if mm and op in ('uitofp', 'sitofp') and mm.group(6) in self.FP_PREC:
+                o = D(mm.group(3), mm.group(4)); P = self.FP_PREC[mm.group(6)]; bits = parse_type(mm.group(3)).bits
                 def f(env, prev):
-                    env[dest] = FPV(('int', o(env)))
+                    if not getattr(self, 'fp_exact', False): env[dest] = self.fp_havoc(op); return
+                    x = o(env)
+                    if isinstance(x, bool): x = int(x)
+                    if op == 'sitofp':
+                        neg = (x >= 2 ** (bits - 1)) if isinstance(x, int) else (not self.valid(x < 2 ** (bits - 1)))
+                        if neg: env[dest] = self.fp_havoc(op); return
+                    env[dest] = self.fp_round(x, 1, P)
                 return f
-            if getattr(self, 'fp_exact', False) and mm and op == 'fdiv' and mm.group(3) == 'x86_fp80':
-                oa, ob = D('x86_fp80', mm.group(4)), D('x86_fp80', mm.group(5))
+            if mm and op in ('fadd', 'fsub', 'fmul', 'fdiv') and mm.group(3) in self.FP_PREC:
+                ty_ = mm.group(3); oa, ob = D(ty_, mm.group(4)), D(ty_, mm.group(5)); P = self.FP_PREC[ty_]
                 def f(env, prev):
-                    env[dest] = self.fp80_div(oa(env), ob(env))
+                    if not getattr(self, 'fp_exact', False): env[dest] = self.fp_havoc(op); return
+                    env[dest] = self.fp_binop(op, oa(env), ob(env), P)
+                return f
+            if mm and op in ('fpext', 'fptrunc') and mm.group(6) in self.FP_PREC:
+                o = D(mm.group(3), mm.group(4)); P = self.FP_PREC[mm.group(6)]
+                def f(env, prev):
+                    q = self.fpq(o(env)) if getattr(self, 'fp_exact', False) else None
+                    if q is None: env[dest] = self.fp_havoc(op); return
+                    env[dest] = FPV(('q', q[0], q[1])) if op == 'fpext' else self.fp_round(q[0], q[1], P)
                 return f
             def f(env, prev):
-                self.fresh_n += 1; env[dest] = FPV('%s!%d' % (op, self.fresh_n))
+                env[dest] = self.fp_havoc(op)
             return f
         if op in ('fptoui', 'fptosi'):
             m = re.match(r'\w+ (.+?) ([^ ]+) to (.+)$', t)
             toT = parse_type(m.group(3))
-            osrc = D(m.group(1), m.group(2)) if getattr(self, 'fp_exact', False) and m.group(1) == 'x86_fp80' else None
+            osrc = D(m.group(1), m.group(2))
             def f(env, prev):
-                if osrc is not None:
-                    v = osrc(env)
-                    if isinstance(v, FPV) and isinstance(v.tag, tuple) and v.tag[0] in ('int', 'ld', 'ldc'):
-                        env[dest] = self.fp80_trunc(v); return
+                if getattr(self, 'fp_exact', False):
+                    v = self.fp_to_int(osrc(env))
+                    if v is not None:
+                        env[dest] = v; return
                 env[dest] = self.fresh('fp2int', toT.bits)
             return f
         if op == 'fcmp':
+            m = re.match(r'fcmp (?:(?:fast|nnan|ninf|nsz|arcp|contract|afn|reassoc) )*(\w+) (.+?) ([^ ,]+), ([^ ,]+)$', t)
+            oa = D(m.group(2), m.group(3)) if m else None; ob = D(m.group(2), m.group(4)) if m else None
             def f(env, prev):
+                if m and getattr(self, 'fp_exact', False):
+                    r = self.fp_cmp(m.group(1), oa(env), ob(env))
+                    if r is not None:
+                        env[dest] = r; return
                 env[dest] = self.fresh_bool('fcmp')
             return f
         raise ValueError('unhandled instruction')
